@@ -421,9 +421,25 @@ def timer_s(draw, pid, tier):
 
 @st.composite
 def c10_s(draw, pid, tier):
-    if draw(st.integers(0, 59)) == 0:
+    k = draw(st.integers(0, 59))
+    if k == 0:
         return draw(timer_s(pid, tier))
-    return draw(history_s(pid, tier))
+    base = draw(history_s(pid, tier))
+    if k in (1, 2):
+        # a long history: the generated block repeated R times on shifting (and recurring) ids,
+        # hundreds to thousands of clients through one daemon
+        R = draw(st.sampled_from([20, 50, 120] if tier == "quick" else [100, 400, 1500]))
+        block = [e for e in base["events"] if e[0] != "raw"]
+        events = []
+        for r in range(R):
+            shift = (r % 7) * 41
+            for e in block:
+                e2 = list(e)
+                e2[1] = e[1] + shift
+                events.append(e2)
+        base["events"] = events
+        base["long"] = R
+    return base
 
 
 def strategy(pid, tier, opts):
@@ -479,6 +495,10 @@ def evaluate(case, ctx):
 def eval_c10_exit(tr, res, mem, leak):
     if any(e[0] == "(sleep" or e[0].startswith("(sleep") for e in tr.steps):
         res.classes.add("real_timer_case")
+    if len(tr.steps) > 400:
+        res.classes.add("long_history_over_400_events")
+    if len(tr.steps) > 5000:
+        res.classes.add("long_history_over_5000_events")
     if mem or tr.died:
         # request lifecycle on a well-formed history: C10 owns memory errors here (DESIGN 2.1a)
         res.violations.append(proto.Violation("C10", None, "memory_error", "sanitizer report / death while handling requests: %s" % (mem[:1] or ["daemon died, rc=%r" % tr.rc])))
@@ -491,3 +511,117 @@ def eval_c10_exit(tr, res, mem, leak):
             res.violations.append(proto.Violation("C10", None, "leak_at_exit", "leak report at exit: %s" % leak[:2]))
         elif not mem:
             res.violations.append(proto.Violation("C10", None, "unclean_exit", "exit status %r after end of input" % tr.rc))
+
+
+# ---------------------------------------------------------------------------
+# enumerated parts (DESIGN 2.2a, last column): schedule point at every gap of a
+# script (C02, C03), every arrival order of the data items for one client (C06)
+
+import itertools
+import multiprocessing as _mp
+
+ENUM_TABLES = [
+    [],
+    [["alpha.ex", "login"]],
+    [["alpha.ex", "dronecheck"]],
+    [["alpha.ex", "login-ipr"]],
+    [["alpha.ex", "combined"]],
+    [["alpha.ex", "login"], ["Beta.ex", "dronecheck"]],
+    [["alpha.ex", "login"], ["Beta.ex", "login-ipr"], ["gamma.ex", "dronecheck"]],
+    [["alpha.ex", "combined"], ["Beta.ex", "login"]],
+]
+
+
+def _conf(services, timeout=30, modules=None):
+    return {"modules": modules or ["iauth_class", "iauth_xquery"], "services": services, "timeout": timeout,
+            "rules": [["r1", {"class": "c1", "hostname": "*.example.org"}], ["r2", {"class": "c2"}]],
+            "logs": [["*.>=info", "file:iauthd.log"]]}
+
+
+def enum_timeout_cases():
+    """Canonical single-client scripts x service tables, the timer firing at every gap."""
+    cid = 7
+    data = [["N", cid, "h.example.org"], ["u", cid, "ident"], ["n", cid, "Nick"], ["U", cid, "user", "real name"]]
+    for services in ENUM_TABLES:
+        names = [s[0] for s in services]
+        variants = []
+        for pw in (None, "+ acct pw", "+! acct pw", "+x! acct pw"):
+            for rk in ("OK", "OK acct:1", "AGAIN later", "MORE say"):
+                sc = [["C", cid, "10.1.2.3", 4000]]
+                if pw:
+                    sc.append(["P", cid, pw])
+                sc += data
+                for n in names:
+                    sc.append(["X", cid, n, rk, "cur"])
+                if rk.startswith("MORE"):
+                    sc.append(["P", cid, "response"])
+                    for n in names:
+                        sc.append(["X", cid, n, "OK acct:1", "cur"])
+                if pw and "!" in pw:
+                    sc.append(["P", cid, "-! acct pw"])
+                variants.append(sc)
+        for sc in variants:
+            for gap in range(1, len(sc) + 1):
+                ev = sc[:gap] + [["!", cid]] + sc[gap:]
+                yield {"conf": _conf(services), "events": ev}
+
+
+def enum_order_cases():
+    """Every arrival order of the five data items (x bare u / d / H position) for one client."""
+    cid = 9
+    for services in ENUM_TABLES[1:]:
+        for host in (["N", cid, "h.example.org"], ["d", cid]):
+            for ident in (["u", cid, "ident"], ["u", cid]):
+                items = [host, ident, ["n", cid, "Nick"], ["U", cid, "user", "real name"], ["P", cid, "+x acct pw"]]
+                for perm in itertools.permutations(items):
+                    yield {"conf": _conf(services, 0), "events": [["C", cid, "10.1.2.3", 4000]] + [list(e) for e in perm]}
+        items = [["N", cid, "h.example.org"], ["u", cid, "ident"], ["n", cid, "Nick"], ["U", cid, "user", "real name"], ["P", cid, "+x acct pw"]]
+        for hpos in range(0, 6):
+            ev = [["C", cid, "10.1.2.3", 4000]] + items[:hpos] + [["H", cid]] + items[hpos:]
+            yield {"conf": _conf(services, 0), "events": ev}
+
+
+def _enum_worker(args):
+    pid, which, widx, nw = args
+    ctx = make_context(pid, "quick", 100 + widx, {})
+    n = nt = 0
+    fails = []
+    samples = []
+    try:
+        gen = enum_timeout_cases() if which == "timeout" else enum_order_cases()
+        for i, case in enumerate(gen):
+            if i % nw != widx:
+                continue
+            r = evaluate(case, ctx)
+            n += 1
+            if r.nontrivial:
+                nt += 1
+                if len(samples) < 1 and i % 53 == 0:
+                    samples.append(case)
+            for v in r.violations:
+                if v.pid == pid and len(fails) < 3:
+                    fails.append({"case": case, "sig": v.sig, "msg": v.msg})
+                    break
+    finally:
+        close_context(ctx)
+    return n, nt, fails, samples
+
+
+def extra_phase(pid, tier, seed):
+    which = {"C02": "timeout", "C03": "timeout", "C06": "order"}.get(pid)
+    if which is None:
+        return None
+    nw = vc.NCPU
+    with _mp.get_context("fork").Pool(nw) as pool:
+        rs = pool.map(_enum_worker, [(pid, which, w, nw) for w in range(nw)])
+    out = {"evaluations": 0, "nontrivial": 0, "fails": [], "classes": {}, "samples": [],
+           "exhaustive_scope": ("the request timeout fired at every gap of 16 canonical single-client scripts (4 password variants x 4 reply kinds) for each of 8 service tables"
+                                if which == "timeout" else
+                                "every arrival order of the five data items (x N/d x ident/bare u) and every position of H for one client, for each of 7 service tables")}
+    for n, nt, fails, samples in rs:
+        out["evaluations"] += n
+        out["nontrivial"] += nt
+        out["fails"].extend(fails)
+        out["samples"].extend(samples)
+    out["classes"]["enumerated_cases"] = out["evaluations"]
+    return out
